@@ -140,28 +140,32 @@ def forbidden_hits():
 
 
 def lean_audit(prop_modules, required=None):
-    """#print axioms for every property theorem of the modules.
+    """#print axioms for every property theorem of the modules (one lean run per module, so that a
+    module that does not build does not hide the others).
     returns dict name -> sorted axiom list, or None if the theorem is missing/unbuilt"""
-    names = []
-    for mod in prop_modules:
-        names += theorems_of(LEAN / (mod.replace(".", "/") + ".lean"))
-    for r in required or []:
-        if r not in names:
-            names.append(r)
-    src = "".join(f"import {m}\n" for m in prop_modules) + "".join(f"#print axioms {n}\n" for n in names)
-    tmp = LEAN / ".lake" / f"audit-{os.getpid()}.lean"
-    tmp.write_text(src)
-    try:
-        rc, out, err = _run(["lake", "env", "lean", str(tmp)], cwd=LEAN, timeout=1200)
-    finally:
-        tmp.unlink(missing_ok=True)
-    res = {n: None for n in names}
-    text = out + err
-    for m in re.finditer(r"'([^']+)' depends on axioms: \[([^\]]*)\]", text, re.S):
-        res[m.group(1)] = sorted(a.strip() for a in m.group(2).replace("\n", " ").split(",") if a.strip())
-    for m in re.finditer(r"'([^']+)' does not depend on any axioms", text):
-        res[m.group(1)] = []
-    return res, text
+    res, texts = {}, []
+    for mi, mod in enumerate(prop_modules):
+        names = theorems_of(LEAN / (mod.replace(".", "/") + ".lean"))
+        if mi == 0:
+            for r in required or []:
+                if r not in names:
+                    names.append(r)
+        src = f"import {mod}\n" + "".join(f"#print axioms {n}\n" for n in names)
+        tmp = LEAN / ".lake" / f"audit-{os.getpid()}-{mi}.lean"
+        tmp.write_text(src)
+        try:
+            rc, out, err = _run(["lake", "env", "lean", str(tmp)], cwd=LEAN, timeout=1200)
+        finally:
+            tmp.unlink(missing_ok=True)
+        for n in names:
+            res[n] = None
+        text = out + err
+        texts.append(text)
+        for m in re.finditer(r"'([^']+)' depends on axioms: \[([^\]]*)\]", text, re.S):
+            res[m.group(1)] = sorted(a.strip() for a in m.group(2).replace("\n", " ").split(",") if a.strip())
+        for m in re.finditer(r"'([^']+)' does not depend on any axioms", text):
+            res[m.group(1)] = []
+    return res, "\n".join(texts)
 
 
 class ProofResult:
